@@ -1,4 +1,5 @@
 import GlueVerif.Lemmas.GeometryPoly
+import GlueVerif.Lemmas.GeometryEllipse
 /-!
 # C08 — sequences of `move_to` / `rotate_to` / `copy` / save-restore
 
@@ -414,8 +415,7 @@ theorem inv_fold (ops : List Op) : ∀ (st : SpecState) (cur : Roi), Inv st cur 
 def ImplHyp (roi : Roi) (ε : Rat) : Prop :=
   match roi with
   | .rect r => r.c * r.c + r.s * r.s = 1 ∧ 0 ≤ ε ∧ r.branchTol ≤ ε
-  | .ellipse e => e.c * e.c + e.s * e.s = 1 ∧ 0 < e.rx ∧ 0 < e.ry ∧
-      (branchOf e.c e.s = .axis → e.s = 0) ∧ (branchOf e.c e.s = .quarter → e.c = 0)
+  | .ellipse e => e.c * e.c + e.s * e.s = 1 ∧ 0 < e.rx ∧ 0 < e.ry ∧ 0 ≤ ε ∧ e.branchTol ≤ ε
   | .poly g => 3 ≤ g.vs.length
   | _ => True
 
@@ -423,7 +423,7 @@ theorem impl_eq_spec (roi : Roi) (q : Pt) (ε : Rat) (hh : ImplHyp roi ε) (hfar
     Impl.contains roi q = Spec.contains roi q := by
   cases roi with
   | rect r => exact rect_branches_agree r q ε hh.1 hh.2.1 hh.2.2 hfar
-  | ellipse e => exact ellipse_branches_agree e q hh.1 hh.2.1 hh.2.2.1 hh.2.2.2.1 hh.2.2.2.2
+  | ellipse e => exact ellipse_branches_agree_tilt e q ε hh.1 hh.2.1 hh.2.2.1 hh.2.2.2.1 hh.2.2.2.2 hfar
   | poly g => exact polyContains_eq_spec g.vs q hh
   | _ => rfl
 
